@@ -13,7 +13,7 @@
    Proved below: the single-region, no-deferral case for statements without operand evaluation. *)
 From Coq Require Import ZArith NArith List Bool String.
 From Trion Require Import Text.Types Text.ParseModel Expr.EvalModel Arm.DisplayModel Mem.MapModel Mem.MapProofs
-  Asm.CtxModel Asm.LayoutSpec Asm.SegProofs Asm.LayoutProofs.
+  Asm.CtxModel Asm.CtxProofs Asm.LayoutSpec Asm.SegProofs Asm.LayoutProofs.
 Import ListNotations.
 Open Scope N_scope.
 
@@ -47,6 +47,18 @@ Theorem C05_labels_partial : forall dbg fs inc st s e name tbl b,
     active st1 = Active s /\
     seg_write dbg s [b] = SOk (set_buf s (s_buf s ++ [b])).
 Proof. exact label_next_byte. Qed.
+
+(* the in-place evaluation the context performs (Asm/CtxEval.evaluate_mut, which also returns the partially
+   substituted tree when it fails) is Expr/EvalModel.evaluate: same tree and status on success, an error exactly when
+   evaluate reports one, a panic exactly when evaluate panics (never: C08_no_panic).  This is what carries C08's
+   "same value before or after the definition" (C08_staged / C08_direct) over to deferred statements. *)
+Theorem C05_evaluate_agrees : forall lk isr a,
+  match evaluate lk isr a with
+  | I64.Ok (a', e) => evaluate_mut (fun n => Some (lk n)) isr a = EvOk a' e
+  | I64.Err _ => exists a' e, evaluate_mut (fun n => Some (lk n)) isr a = EvErr a' e
+  | I64.Panic s => evaluate_mut (fun n => Some (lk n)) isr a = EvPanic (P_simplify s)
+  end.
+Proof. exact evaluate_mut_agrees. Qed.
 
 Open Scope string_scope.
 (* non-vacuity: forward label + region switch + definition; the pipeline's image and the two-pass reference agree *)
